@@ -126,6 +126,16 @@ func init() {
 			}
 			jobs = append(jobs, concJob("BulkRefresh‖InvalidateAll/"+ex, ref, []string{"set 1", "set 2"}, [][]string{{"bulkrefresh 1,2 full"}, {"invall"}}, or, "native", bpb, false, 8, budget, "writes-during-flight"))
 			jobs = append(jobs, concJob("missLoad‖Set;Invalidate/"+ex, plain, nil, [][]string{{"load 1 val"}, {"set 1", "inv 1"}}, or, "native", pb, false, 8, budget))
+			// the same with a size bound (replaced nodes are retired: the sweep meets a dead node whose key holds a newer
+			// value) and a second entry that the sweep visits first or last
+			if ex == "caller" {
+				refb := ref
+				refb.MaxSize = 5
+				for _, k := range []string{"1", "2"} {
+					jobs = append(jobs, concJob("Refresh "+k+"‖InvalidateAll(bounded, two entries)/"+ex, refb, []string{"set 1", "set 2"}, [][]string{{"refresh " + k + " val"}, {"invall"}}, or, "native", pb, false, 8, budget, "writes-during-flight"))
+					jobs = append(jobs, concJob("reload "+k+"‖InvalidateAll(bounded, two entries)/"+ex, refb, []string{"set 1", "set 2", "adv 50"}, [][]string{{"load " + k + " val"}, {"invall"}}, or, "native", pb, false, 8, budget))
+				}
+			}
 		}
 		// the same core races from non-initial states: after loads that ended in every way (extra keys volunteered by a
 		// bulk loader, partial results, errors, not-found), after which the bookkeeping of the in-flight table must be
@@ -201,6 +211,31 @@ func init() {
 			l3 := CacheCfg{MaxSize: 2, Executor: ex}
 			jobs = append(jobs, concJob("L3:evicting/"+ex, l3, []string{"set 1", "set 2"}, [][]string{{"set 3", "get 1"}, {"get 2", "set 1"}}, or, "native", pb, false, 16, budget, "histories-checked"))
 			jobs = append(jobs, concJob("L3:evicting-cap1/"+ex, CacheCfg{MaxSize: 1, Executor: ex}, []string{"set 1"}, [][]string{{"set 2", "get 2"}, {"get 1", "cia 1"}}, or, "native", pb, false, 16, budget, "histories-checked"))
+		}
+		// L1 triples: every multiset of three operations on one key, one per thread, each followed by a read of that key
+		// (three-party histories: a total order must explain all three results and the three read-backs)
+		{
+			tops := []string{"set 1", "sia 1", "cw 1", "ci 1", "cia 1", "cipw 1", "inv 1", "load 1 val"}
+			if !thorough {
+				tops = []string{"set 1", "sia 1", "cw 1", "ci 1", "inv 1", "load 1 val"}
+			}
+			tpb := 1
+			if thorough {
+				tpb = 2
+			}
+			for i, a := range tops {
+				for j, b := range tops[i:] {
+					for _, c := range tops[i+j:] {
+						for _, setup := range [][]string{{"set 2"}, {"set 2", "set 1"}} {
+							lbl := "L1:triple:" + a + "‖" + b + "‖" + c
+							if len(setup) == 2 {
+								lbl += "/present"
+							}
+							jobs = append(jobs, concJob(lbl, CacheCfg{}, setup, [][]string{{a, "get 1"}, {b, "get 1"}, {c, "get 1"}}, or, "native", tpb, false, 1, 2*budget, "histories-checked"))
+						}
+					}
+				}
+			}
 		}
 		// L3 matrix: all pairs of operations on a full, evicting cache (every writer reads a key back)
 		evops := []string{"set 1", "set 3", "inv 1", "cw 1", "ci 2", "cia 3", "sia 3", "cipw 2", "load 3 val"}
